@@ -105,4 +105,15 @@ def exNumLaws : NumLaws decCodec where
     simp only [Bool.or_eq_true, beq_iff_eq] at h
     rcases h with ((h | h) | h) | h <;> (subst h; decide +kernel)
 
+/-- `((a:1,b:1)X:1,(c:1,d:1)X:1,e:1);` : two inner nodes with the same name, tips all different -/
+def dupTree : T :=
+  .node ⟨"", []⟩ 0 [(exE 1 NIL, .node ⟨"X", []⟩ 0 [(exE 1 NIL, T.leaf "a"), (exE 1 NIL, T.leaf "b")]),
+    (exE 1 NIL, .node ⟨"X", []⟩ 0 [(exE 1 NIL, T.leaf "c"), (exE 1 NIL, T.leaf "d")]),
+    (exE 1 NIL, T.leaf "e")]
+
+/-- outcome of the Nexus reader: an error -/
+def Nex.PRes.isErr : Nex.PRes Nex.NexDoc → Bool
+  | .err => true
+  | _ => false
+
 end Gotree.C13
